@@ -174,6 +174,29 @@ def gen_pairs(seed, tier):
                         out.append((f"CH hash {mask} " + " ".join(cops), f"H hash {mask} " + " ".join(rops)))
                         cops, rops, j = [f"u:0:paint/0/{n0}"], [f"u:0:paint/0/{n0}"], 0
             out.append((f"CH hash {mask} " + " ".join(cops), f"H hash {mask} " + " ".join(rops)))
+    # wide finalize_seek requests that straddle a 32-bit boundary of the OUTPUT BLOCK counter: every group shape of
+    # blake3_xof_many (16/8/4/2/1 blocks) must carry into the high counter word in every lane, at 2^32 (carry) and at
+    # 2^31 (where signed/unsigned compare tricks differ).  Start k blocks below the boundary, m whole blocks.
+    for mask in MASKS:
+        for bi, boundary in enumerate(((1 << 32), (1 << 31), 3 * (1 << 31))):
+            cops, rops, j = ["u:0:paint/0/1025"], ["u:0:paint/0/1025"], 0
+            ks = list(range(1, 18)) if thorough else [1, 2, 3, 5, 7, 8, 9, 12, 15, 16, 17]
+            idx = 0
+            for k in ks:
+                for m in (2, 3, 4, 5, 7, 8, 9, 12, 15, 16, 17, 24, 31, 32, 33):
+                    idx += 1
+                    if not thorough and (idx + seed + bi) % 4:
+                        continue
+                    sk = (boundary - k) * 64 + rng.choice([0, 0, 17])
+                    n = 64 * m + rng.choice([0, 0, 5])
+                    cops.append(f"fs:0:{sk}:{n}")
+                    rops += ["xo:0", f"rs:{j}:{sk}", f"rf:{j}:{n}"]
+                    j += 1
+                    if len(cops) > 40:
+                        out.append((f"CH hash {mask} " + " ".join(cops), f"H hash {mask} " + " ".join(rops)))
+                        cops, rops, j = ["u:0:paint/0/1025"], ["u:0:paint/0/1025"], 0
+            if len(cops) > 1:
+                out.append((f"CH hash {mask} " + " ".join(cops), f"H hash {mask} " + " ".join(rops)))
     # exhaustive 2-splits of short totals (every cut), one mask each
     lens = list(range(0, 131, 1 if thorough else 5)) + [1023, 1024, 1025, 2047, 2048, 2049, 3072, 4096, 4097]
     for li, total in enumerate(lens):
